@@ -612,11 +612,15 @@ def _observe(ctx, cases, known, tag, channels=True, nproc=8):
     return res
 
 
-def _judge(ctx, observed, label, counts):
+def _validate(ctx, observed, parallel):
+    traces = [make_trace(c) for c in observed]
+    return traces, validate_traces(traces, ctx.scratch, parallel=parallel)
+
+
+def _judge(ctx, observed, label, counts, parallel=10, pre=None):
     """validate the observed cases by TLC and turn rejections into violations."""
     ev, v = ctx.ev, ctx.v
-    traces = [make_trace(c) for c in observed]
-    reached, distinct, generated, wall = validate_traces(traces, ctx.scratch, parallel=12 if ctx.thorough else 10)
+    traces, (reached, distinct, generated, wall) = pre if pre is not None else _validate(ctx, observed, parallel)
     ev.tlc_counts(f"OmmlTrace: {label} ({len(traces)} trees validated)", distinct, generated, wall)
     ev.replayed(len(traces))
     for c, t, r in zip(observed, traces, reached):
@@ -643,12 +647,25 @@ def run(ctx):
     known = known_commands()
     counts: dict = {}
 
-    # ---- 1. TLC theorem runs (+ dumps) and sensitivity runs, in parallel
+    # ---- 1. per universe part (in parallel): TLC theorem run + dump -> replay -> TLC trace validation;
+    #         sensitivity runs alongside
     def enum(part):
         dump = ctx.scratch / f"omml-{part}.dump"
         r = run_tlc("OmmlGen", _enum_cfg(part, profile), scratch=ctx.scratch, dump=dump, workers=2, timeout=1700,
                     expect_fail=True, heap="6g")
-        return part, dump, r
+        if r.violated:
+            return part, r, None, None
+        path = dump if dump.exists() else Path(str(dump) + ".dump")
+        cases = [{"id": "", "tree": plain(s["tree"])} for s in iter_dump(path)]
+        cases.sort(key=lambda c: json.dumps(c["tree"], sort_keys=True))
+        for k, c in enumerate(cases):
+            c["id"] = f"{part}:{k}"
+        if len(cases) != r.distinct:
+            raise MachineryError(f"dump of {part} has {len(cases)} states, TLC reported {r.distinct}")
+        path.unlink(missing_ok=True)
+        ctx.log(f"{part}: {len(cases)} trees enumerated by TLC ({r.wall_s:.0f}s)")
+        obs = _observe(ctx, cases, known, part, nproc=4)
+        return part, r, obs, _validate(ctx, obs, 4)
 
     def sens(item):
         dev, part, inv = item
@@ -664,23 +681,13 @@ def run(ctx):
     total = 0
     samples = []
     for fut in enum_f:
-        part, dump, r = fut.result()
+        part, r, obs, pre = fut.result()
         ev.tlc(f"OmmlGen[{part}]: reference design is total / documented shape / balanced on every tree", r)
         if r.violated:
             v.violation(what=f"OmmlGen[{part}]: {r.violated} violated by the specification's reference design",
                         observed=r.trace[:1])
             continue
-        path = dump if dump.exists() else Path(str(dump) + ".dump")
-        cases = [{"id": f"{part}:{k}", "tree": plain(s["tree"])} for k, s in enumerate(iter_dump(path))]
-        cases.sort(key=lambda c: json.dumps(c["tree"], sort_keys=True))
-        for k, c in enumerate(cases):
-            c["id"] = f"{part}:{k}"
-        if len(cases) != r.distinct:
-            raise MachineryError(f"dump of {part} has {len(cases)} states, TLC reported {r.distinct}")
-        path.unlink(missing_ok=True)
-        ctx.log(f"{part}: {len(cases)} trees enumerated by TLC ({r.wall_s:.0f}s)")
-        obs = _observe(ctx, cases, known, part)
-        total += _judge(ctx, obs, f"universe part {part}", counts)
+        total += _judge(ctx, obs, f"universe part {part}", counts, pre=pre)
         if obs:
             c = obs[len(obs) // 2]
             samples.append({"part": part, "omml": c["xml"][:300], "latex": c["out"]["s"], "docx": c["doc"]["st"],
